@@ -15,13 +15,18 @@ static int trace = -1;
 static inline void acc(const void* p, size_t n, bool w, void* pc) {
   if (!inTask()) return;
   if (isStackAddr(p)) return;
-  if (trace < 0) trace = getenv("SIM_TRACE") ? 1 : 0;
-  if (trace) fprintf(stderr, "T step=%llu task=%d %s%zu addr=%p pc=%p\n", (unsigned long long)stepNo(), self(), w ? "w" : "r", n, p, pc);         // own-stack traffic is thread-private: neither checked nor a yield point
+  static uint64_t traceSeed = 0; static unsigned long lo = 0, hi = ~0UL;
+  if (trace < 0) { trace = getenv("SIM_TRACE") ? 1 : 0; if (getenv("SIM_TRACE_SEED")) traceSeed = strtoull(getenv("SIM_TRACE_SEED"), 0, 10); if (getenv("SIM_TRACE_RANGE")) sscanf(getenv("SIM_TRACE_RANGE"), "%lu-%lu", &lo, &hi); }
+  if (trace && (!traceSeed || traceSeed == currentSeed()) && stepNo() >= lo && stepNo() <= hi) fprintf(stderr, "T step=%llu task=%d %s%zu addr=%p pc=%p\n", (unsigned long long)stepNo(), self(), w ? "w" : "r", n, p, pc);         // own-stack traffic is thread-private: neither checked nor a yield point
+  static int ty = -1; if (ty < 0) ty = getenv("SIM_TRACEYIELDS") ? 1 : 0;
+  if (ty) traceNote(w ? "yw" : "yr", (int64_t)(uintptr_t)pc, memIsArena(p) ? (int64_t)(uintptr_t)p : 0, (int64_t)n);
   memAccess(p, n, w, pc);
   yieldMem();
 }
 static inline void atom(const void* p, size_t n, void* pc) {
   if (!inTask()) return;
+  static int ty = -1; if (ty < 0) ty = getenv("SIM_TRACEYIELDS") ? 1 : 0;
+  if (ty) traceNote("ya", (int64_t)(uintptr_t)pc, memIsArena(p) ? (int64_t)(uintptr_t)p : 0, (int64_t)n);
   memAccess(p, n, true, pc);
   yieldSync();
 }
